@@ -33,6 +33,8 @@ class P(explore.Problem):
         self.targets = fam['cells'] + fam['ranges'] + fam['unbounded']
         self.ops = [('ev', a) for a in self.targets] + \
                    [('set', i, v) for i in fam['inputs'] for v in values]
+        if origin.startswith('inmem') and values:
+            self.ops.append(('recalc',))          # public API: recalculate every known cell
         self.refmemo = {}
         self.path = None
         self.invalidating = 0
@@ -102,6 +104,12 @@ class P(explore.Problem):
                 return ('ok', m.evaluate(op[1]))
             except Exception as exc:
                 return ('exc', type(exc).__name__, str(exc)[:200])
+        elif op[0] == 'recalc':
+            try:
+                m.recalculate()
+                return ('recalc',)
+            except Exception as exc:
+                return ('exc', type(exc).__name__, str(exc)[:200])
         else:
             _, addr, v = op
             before = None
@@ -129,6 +137,12 @@ class P(explore.Problem):
             return ('set', n_inv)
 
     def check(self, st, hist, op, obs):
+        if op[0] == 'recalc':
+            if obs[0] == 'exc':
+                ref = self.ref(st['assign'])
+                if all(v[0] == 'ok' for v in ref.values()):
+                    return f'recalculate() raised {obs[1]}: {obs[2]}'
+            return None
         if op[0] == 'set':
             if obs[0] == 'exc':
                 return f'set_value{op[1:]} raised {obs[1]}: {obs[2]}'
